@@ -5,7 +5,7 @@ from this file on every run."""
 
 class H:
     def __init__(self, name, body, *, unwind, tier="quick", timeout=120, stubs=(), gen="", funcs=(),
-                 space_bits=0, bound="", covers=1, mem_gb=3, note="", slice_of=None, expect_stub=None):
+                 space_bits=0, bound="", covers=1, mem_gb=3, note="", slice_of=None, expect_stub=None, rot=None):
         self.name = name            # harness name (unique)
         self.body = body            # path below vh::props, e.g. "c08::p32_to_p16"
         self.gen = gen              # const generic arguments, e.g. "8" -> body::<8, S>
@@ -20,6 +20,7 @@ class H:
         self.mem_gb = mem_gb
         self.note = note
         self.slice_of = slice_of    # name of the partition this harness is a slice of
+        self.rot = rot              # (index, period): a thorough-tier harness that quick also runs when (index + VERIF_SEED) % period == 0
 
 
 PLAN = {}
@@ -117,7 +118,9 @@ reg("C01",
       bound="every operand pair, modulo the contract of softposit::lldiv (stubbed: q*d+r=n, 0<=r<d; quotient shared with the reference)"),
     H("c01_p32_div_bounded", "c01::p32::div_bounded", unwind=33, timeout=1800, tier="thorough", funcs=["P32E2::div", "softposit::lldiv"], space_bits=39,
       bound="real kernel, no stub: every dividend, divisors with <= 6 fraction bits"),
-    H("c01_p32_spell", "c01::p32::spell", unwind=33, timeout=900, funcs=["P32E2: +,-,* operator traits, const methods, op-assign"], space_bits=64, bound="every operand pair"),
+    H("c01_p32_spell_add", "c01::p32::spell_op", gen="0", unwind=33, timeout=1800, tier="thorough", funcs=["P32E2: + operator trait, const method, +="], space_bits=64, bound="every operand pair"),
+    H("c01_p32_spell_sub", "c01::p32::spell_op", gen="1", unwind=33, timeout=1800, tier="thorough", funcs=["P32E2: - operator trait, const method, -="], space_bits=64, bound="every operand pair"),
+    H("c01_p32_spell_mul", "c01::p32::spell_op", gen="2", unwind=33, timeout=1800, tier="thorough", funcs=["P32E2: * operator trait, const method, *="], space_bits=64, bound="every operand pair"),
     H("c01_p32_addsub_special", "c01::p32::addsub_special", unwind=33, funcs=["P32E2::add", "P32E2::sub"], space_bits=34, bound="every pair with a zero or NaR operand"),
     H("c01_p32_slices_cover", "c01::p32::slices_cover", unwind=33, funcs=[], space_bits=64, bound="the 9 slice predicates below cover every pair of real operands"),
     )
@@ -127,7 +130,7 @@ P32_ADD_SLICES = [(True, 0, 3, 150), (True, 4, 15, 300), (True, 16, 40, 320), (T
 for op in ("add", "sub"):
     for same, lo, hi, sec in P32_ADD_SLICES:
         nm = "c01_p32_%s_%s_d%d_%d" % (op, "same" if same else "diff", lo, hi)
-        reg("C01", H(nm, "c01::p32::%s_slice" % op, gen="%s, %d, %d" % ("true" if same else "false", lo, hi), unwind=33, timeout=max(4 * sec, 300),
+        reg("C01", H(nm, "c01::p32::%s_slice" % op, gen="%s, %d, %d" % ("true" if same else "false", lo, hi), unwind=33, timeout=max(8 * sec, 600),
                      tier="quick" if sec <= 220 else "thorough", funcs=["P32E2::%s" % op], space_bits=64, slice_of="P32E2 %s over all real pairs" % op,
                      bound="real operands, effective signs %s, |scale(a)-scale(b)| in [%d,%d]" % ("equal" if same else "opposite", lo, hi)))
 
@@ -169,7 +172,7 @@ reg("C12",
 for t, T, n, uw in TYPES[:2]:
     tmo = {"p8": 300, "p16": 1500}[t]
     for f in ("mul_add", "mul_sub", "sub_product"):
-        reg("C05", H("c05_%s_%s" % (t, f), "c05::%s::%s" % (t, f), unwind=uw + 2, timeout=tmo, funcs=["%s::%s" % (T, f)], space_bits=3 * n, bound="every operand triple"))
+        reg("C05", H("c05_%s_%s" % (t, f), "c05::%s::%s" % (t, f), unwind=uw + 8, timeout=tmo, funcs=["%s::%s" % (T, f)], space_bits=3 * n, bound="every operand triple"))
 reg("C05",
     H("c05_p32_special", "c05::p32::special", unwind=34, timeout=600, funcs=["P32E2::mul_add", "P32E2::mul_sub", "P32E2::sub_product"], space_bits=66, bound="every triple with a zero or NaR operand"),
     H("c05_p32_op_mapping", "c05::p32::op_mapping", unwind=34, timeout=2400, tier="thorough", funcs=["P32E2::mul_sub", "P32E2::sub_product", "P32E2::mul_add"], space_bits=96,
@@ -191,11 +194,182 @@ reg("C06",
     H("c06_p32_sqrt_f4", "c06::p32::sqrt_fbits", gen="4, 16", unwind=34, timeout=900, funcs=["P32E2::sqrt"], space_bits=11, bound="positive inputs whose fraction has <= 4 significant bits (every regime and exponent)"),
     H("c06_p32_sqrt_low_4a5a5", "c06::p32::sqrt_lowbits", gen="0x4A5A5", unwind=34, timeout=900, funcs=["P32E2::sqrt"], space_bits=12, bound="top 20 bits 0x4A5A5, low 12 bits free"),
     )
-for top in range(8):
-    reg("C06", H("c06_p16_sqrt_t%d" % top, "c06::p16::sqrt_top", gen=str(top), unwind=18, timeout=900, tier="quick", funcs=["P16E1::sqrt"], space_bits=13, slice_of="P16E1 sqrt over all inputs",
-                 bound="every P16E1 input whose top 3 bits are %d" % top))
+for top in range(9):
+    reg("C06", H("c06_p16_sqrt_t%d" % top, "c06::p16::sqrt_top", gen=str(top), unwind=18, timeout=1200, tier="quick", funcs=["P16E1::sqrt"], space_bits=12 if top < 8 else 15, slice_of="P16E1 sqrt over all inputs",
+                 bound=("every P16E1 input whose top 4 bits are %d" % top) if top < 8 else "every negative P16E1 input and NaR"))
 for reg_ in range(16):
     reg("C06", H("c06_p32_sqrt_f8_r%d" % reg_, "c06::p32::sqrt_fbits", gen="8, %d" % reg_, unwind=34, timeout=1800, tier="thorough", funcs=["P32E2::sqrt"], space_bits=12,
                  slice_of="P32E2 sqrt, fraction <= 8 significant bits", bound="positive inputs with bits 30..27 == %d whose fraction has <= 8 significant bits" % reg_))
 for i, top in enumerate([0x4A5A5, 0x40000, 0x41234, 0x45FFF, 0x48000, 0x4C321, 0x4FFFF, 0x50001, 0x5A5A5, 0x60000, 0x6789A, 0x70F0F, 0x3FFFF, 0x30001, 0x2ABCD, 0x10000][1:]):
     reg("C06", H("c06_p32_sqrt_low_%05x" % top, "c06::p32::sqrt_lowbits", gen="0x%X" % top, unwind=34, timeout=1200, tier="thorough", funcs=["P32E2::sqrt"], space_bits=12, bound="top 20 bits 0x%05X, low 12 bits free" % top))
+
+# ------------------------------------------------------------------ C17
+import re as _re, os as _os
+_c17 = open(_os.path.join(_os.path.dirname(_os.path.abspath(__file__)), "..", "harness", "src", "props", "c17.rs")).read()
+C17_LISTS = {m.group(1): m.group(2).split() for m in _re.finditer(r"// LIST (\w+): (.*)", _c17)}
+for t, T, n, uw in TYPES:
+    mk = "vh::stubs::m%s" % t
+    for i, meth in enumerate(C17_LISTS["fwd1"]):
+        reg("C17", H("c17_%s_float_%s" % (t, meth), "c17::%s::fwd1" % t, gen=str(i), unwind=4, stubs=[("softposit::%s::%s" % (T, meth), mk + "::m1")],
+                     funcs=["<%s as num_traits::Float>::%s" % (T, meth)], space_bits=n, bound="every input; inherent %s::%s replaced by a call marker (called once, same argument, result returned unchanged)" % (T, meth)))
+    for i, meth in enumerate(C17_LISTS["fwd2"]):
+        reg("C17", H("c17_%s_float_%s" % (t, meth), "c17::%s::fwd2" % t, gen=str(i), unwind=4, stubs=[("softposit::%s::%s" % (T, meth), mk + "::m2")],
+                     funcs=["<%s as num_traits::Float>::%s" % (T, meth)], space_bits=2 * n, bound="every input pair; inherent target replaced by a call marker"))
+    for i, meth in enumerate(C17_LISTS["ops2"]):
+        tgt = "div" if "div" in meth else "rem"
+        reg("C17", H("c17_%s_op_%s" % (t, meth), "c17::%s::ops2" % t, gen=str(i), unwind=4, stubs=[("softposit::%s::%s" % (T, tgt), mk + "::m2")],
+                     funcs=["%s: %s" % (T, {"div": "/", "rem": "%", "div_assign": "/=", "rem_assign": "%="}[meth])], space_bits=2 * n, bound="every input pair; inherent %s::%s replaced by a call marker" % (T, tgt)))
+    reg("C17",
+        H("c17_%s_float_mul_add" % t, "c17::%s::fwd_mul_add" % t, unwind=4, stubs=[("softposit::%s::mul_add" % T, mk + "::m3")], funcs=["<%s as num_traits::Float>::mul_add" % T], space_bits=3 * n, bound="every triple; call marker"),
+        H("c17_%s_float_powi" % t, "c17::%s::fwd_powi" % t, unwind=4, stubs=[("softposit::%s::powi" % T, mk + "::mi")], funcs=["<%s as num_traits::Float>::powi" % T], space_bits=n + 32, bound="every input; call marker"),
+        H("c17_%s_float_sin_cos" % t, "c17::%s::fwd_sin_cos" % t, unwind=4, stubs=[("softposit::%s::sin_cos" % T, mk + "::m12")], funcs=["<%s as num_traits::Float>::sin_cos" % T], space_bits=n, bound="every input; call marker"),
+        H("c17_%s_direct1" % t, "c17::%s::direct1" % t, unwind=uw + 16, timeout=600, funcs=["%s: Float::{floor,ceil,round,trunc,fract,abs,signum,is_sign_*,is_nan,is_infinite,is_finite,is_normal,classify}, Signed::{abs,signum,is_positive,is_negative}, Zero::is_zero, One::is_one, Neg, ToPrimitive::{to_i64,to_u64,to_f64}, NumCast::from" % T], space_bits=n, bound="every input, forwarder vs inherent on the same input"),
+        H("c17_%s_direct2" % t, "c17::%s::direct2" % t, unwind=uw, funcs=["%s: Float::max, Float::min" % T], space_bits=2 * n, bound="every pair"),
+        H("c17_%s_from_primitive" % t, "c17::%s::from_primitive" % t, unwind=66, timeout=600, funcs=["%s: FromPrimitive::{from_i8..from_u64,from_f32,from_f64}, Into" % T], space_bits=64, bound="every 64-bit source word (narrower types by truncation)"),
+        H("c17_%s_constants" % t, "c17::%s::constants" % t, unwind=4, funcs=["%s: Float/Bounded/Zero/One constants, FloatConst vs MathConsts, type aliases, AssociatedQuire" % T], space_bits=0, bound="constants"),
+        )
+reg("C17",
+    H("c17_quire_q8", "c17::quire::q8", unwind=34, timeout=300, funcs=["Quire<P8E0> for Q8E0: all trait methods vs inherent"], space_bits=48, bound="every state and operand pair"),
+    H("c17_quire_q16", "c17::quire::q16", unwind=130, timeout=900, funcs=["Quire<P16E1> for Q16E1: all trait methods vs inherent"], space_bits=160, bound="every state and operand pair"),
+    )
+for part, nm in enumerate(["predicates", "add_product", "sub_product", "neg_clear"]):
+    reg("C17", H("c17_quire_q32_" + nm, "c17::quire::q32", gen=str(part), unwind=66, timeout=1800, mem_gb=10, tier="quick" if part in (0, 3) else "thorough",
+                 funcs=["Quire<P32E2> for Q32E2: " + nm], space_bits=576, bound="every 512-bit state and operand pair"))
+# the C01 op spellings are also C17 obligations
+for t in ("p8", "p16"):
+    reg("C17", [h for h in PLAN["C01"] if h.name == "c01_%s_spell" % t][0])
+for op in ("add", "sub", "mul"):
+    reg("C17", [h for h in PLAN["C01"] if h.name == "c01_p32_spell_%s" % op][0])
+
+# ------------------------------------------------------------------ C18
+for t, T, n, uw in TYPES[:2]:
+    uwq = {"p8": 34, "p16": 130}[t]
+    for d in list(range(1, 5)) + ["3a", "4a"]:
+        ncoef = (int(str(d)[0]) + 1)
+        reg("C18", H("c18_%s_poly%s_meaning" % (t, d), "c18::%s::poly%s_meaning" % (t, d), unwind=uwq, timeout=1200 if t == "p8" else 3600,
+                     tier="quick" if t == "p8" or d in (1, 2) else "thorough", funcs=["%s::poly%s" % (T, d), "%s::mul" % T, "quire += / to_posit"], space_bits=n * (ncoef + 1),
+                     bound="every x and every coefficient array; exact integer reference (sum of c[i]*pow_i in %d-fraction-bit fixed point, powers = reference-rounded products, one rounding%s)" % (12 if t == "p8" else 56, "; two stages as documented" if "a" in str(d) else "")))
+    for d in list(range(1, 19)) + ["3a", "4a"]:
+        deg = int(str(d)[0]) if "a" in str(d) else d
+        if t == "p16" and deg > 8:
+            continue
+        quick = (t == "p8" and deg <= 8) or (t == "p16" and deg <= 2)
+        reg("C18", H("c18_%s_poly%s_staging" % (t, d), "c18::%s::poly%s_staging" % (t, d), unwind=uwq, timeout=2400 if deg <= 8 else 5400, mem_gb=4 if deg <= 8 else 8,
+                     tier="quick" if quick else "thorough", funcs=["%s::poly%s" % (T, d)], space_bits=n * (deg + 2),
+                     bound="every x and every coefficient array; result == the documented multi-stage construction written with the crate's public *, quire += and to_posit"))
+reg("C18",
+    H("c18_p32_poly1_staging", "c18::p32::poly1_staging", unwind=66, timeout=3600, mem_gb=12, tier="thorough", funcs=["P32E2::poly1"], space_bits=96, bound="every x and coefficient pair"),
+    H("c18_p32_poly2_staging", "c18::p32::poly2_staging", unwind=66, timeout=5400, mem_gb=16, tier="thorough", funcs=["P32E2::poly2"], space_bits=128, bound="every x and coefficient triple"),
+    )
+
+# ------------------------------------------------------------------ C13
+C13_QUICK_N = [2, 3, 4, 5, 8, 12, 16]
+C13_WIDE_SLICED = [20, 24, 28, 31, 32]
+for es, P, PT in ((2, "pxe2", "PxE2"), (1, "pxe1", "PxE1")):
+    for N in range(2, 33):
+        q = "quick" if N in C13_QUICK_N else "thorough"
+        cost = 120 if N <= 8 else 900 if N <= 16 else 3600
+        for op, nm in ((0, "add"), (1, "sub"), (2, "mul")):
+            if N > 16 and op < 2:
+                continue
+            reg("C13", H("c13_%s_%s_%d" % (P, nm, N), "c13::%s::arith" % P, gen="%d, %d" % (N, op), unwind=34, timeout=cost, tier=q if N <= 16 else "thorough",
+                         funcs=["%s<%d>: %s" % (PT, N, "+-*"[op])], space_bits=2 * N, bound="every pair of %d-bit patterns (low %d bits zero)" % (N, 32 - N)))
+        reg("C13", H("c13_%s_div_%d" % (P, N), "c13::%s::div" % P, gen=str(N), unwind=34, timeout=600, tier=q, stubs=[LLDIV], funcs=["%s<%d>: /" % (PT, N)], space_bits=2 * N,
+                     bound="every pair of %d-bit patterns, modulo the softposit::lldiv contract (stubbed, quotient shared)" % N))
+        reg("C13", H("c13_%s_round_%d" % (P, N), "c13::%s::round" % P, gen=str(N), unwind=34, timeout=300, tier=q, funcs=["%s<%d>::round" % (PT, N)], space_bits=N, bound="every %d-bit pattern" % N))
+        if P == "pxe2":
+            reg("C13", H("c13_%s_sqrt_%d" % (P, N), "c13::%s::sqrt" % P, gen=str(N), unwind=34, timeout=900 if N <= 12 else 3600, tier=q if N <= 12 else "thorough", funcs=["%s<%d>::sqrt" % (PT, N)], space_bits=N,
+                         bound="every %d-bit pattern (integer root as a nondeterministic witness)" % N))
+        if N <= 16:
+            for op, nm in ((0, "mul_add"), (1, "mul_sub"), (2, "sub_product")):
+                reg("C13", H("c13_%s_%s_%d" % (P, nm, N), "c13::%s::fma" % P, gen="%d, %d" % (N, op), unwind=40, timeout=cost * 2, tier=q if (N <= 8 and op == 0) or N <= 5 else "thorough",
+                             funcs=["%s<%d>::%s" % (PT, N, nm)], space_bits=3 * N, bound="every triple of %d-bit patterns" % N))
+        if N in C13_WIDE_SLICED:
+            reg("C13", H("c13_%s_addsub_special_%d" % (P, N), "c13::%s::addsub_special" % P, gen=str(N), unwind=34, tier="thorough", funcs=["%s<%d>: + -" % (PT, N)], space_bits=N + 2, bound="pairs with a zero or NaR operand"))
+            for op, nm in ((0, "add"), (1, "sub")):
+                for same, lo, hi, sec in P32_ADD_SLICES:
+                    reg("C13", H("c13_%s_%s_%d_%s_d%d_%d" % (P, nm, N, "same" if same else "diff", lo, hi), "c13::%s::addsub_slice" % P,
+                                 gen="%d, %d, %s, %d, %d" % (N, op, "true" if same else "false", lo, hi), unwind=34, timeout=max(8 * sec, 900), tier="thorough",
+                                 funcs=["%s<%d>: %s" % (PT, N, "+-"[op])], space_bits=2 * N, slice_of="%s<%d> %s over all real pairs" % (PT, N, nm),
+                                 bound="real %d-bit operands, effective signs %s, scale distance in [%d,%d]" % (N, "equal" if same else "opposite", lo, hi)))
+for op, nm in ((0, "add"), (1, "sub"), (2, "mul")):
+    reg("C13", H("c13_pxe1_agree16_" + nm, "c13::pxe1::agree16", gen=str(op), unwind=34, timeout=900, tier="quick", funcs=["PxE1<16> vs P16E1: " + nm], space_bits=32, bound="every pair of 16-bit patterns"))
+    reg("C13", H("c13_pxe2_agree32_" + nm, "c13::pxe2::agree32", gen=str(op), unwind=34, timeout=3600, tier="thorough", funcs=["PxE2<32> vs P32E2: " + nm], space_bits=64, bound="every pair of 32-bit patterns"))
+
+# ------------------------------------------------------------------ C14
+C14_QUICK_N = [2, 3, 5, 8, 16, 32]
+C14_PAIR_N = [2, 3, 4, 5, 8, 12, 16, 20, 24, 28, 31, 32]
+C14_PAIR_QUICK = [3, 8, 16, 32]
+for es, P, PT in ((2, "pxe2", "PxE2"), (1, "pxe1", "PxE1")):
+    for N in range(2, 33):
+        q = "quick" if N in C14_QUICK_N else "thorough"
+        reg("C14",
+            H("c14_%s_to_float_%d" % (P, N), "c14::%s::to_float" % P, gen=str(N), unwind=34, timeout=300, tier=q, funcs=["%s<%d>::to_f64/to_f32, From" % (PT, N)], space_bits=N, bound="every %d-bit pattern" % N),
+            H("c14_%s_to_int_%d" % (P, N), "c14::%s::to_int" % P, gen=str(N), unwind=34, timeout=300, tier=q, funcs=["%s<%d>::to_i32/to_u32/to_i64/to_u64, From" % (PT, N)], space_bits=N, bound="every non-NaR %d-bit pattern" % N),
+            H("c14_%s_to_fixed_%d" % (P, N), "c14::%s::to_fixed" % P, gen=str(N), unwind=34, timeout=300, tier=q, funcs=["%s<%d>::to_p32e2/to_p16e1/to_p8e0, From" % (PT, N)], space_bits=N, bound="every %d-bit pattern" % N),
+            H("c14_%s_from_p32_%d" % (P, N), "c14::%s::from_p32" % P, gen=str(N), unwind=34, timeout=300, tier=q, funcs=["%s<%d>::from_p32e2, From<P32E2>, P32E2::to_%s" % (PT, N, P)], space_bits=32, bound="every P32E2 pattern"),
+            H("c14_%s_from_p16_%d" % (P, N), "c14::%s::from_p16" % P, gen=str(N), unwind=34, timeout=300, tier=q, funcs=["%s<%d>::from_p16e1, From<P16E1>" % (PT, N)], space_bits=16, bound="every P16E1 pattern"),
+            H("c14_%s_from_p8_%d" % (P, N), "c14::%s::from_p8" % P, gen=str(N), unwind=34, timeout=300, tier=q, funcs=["%s<%d>::from_p8e0, From<P8E0>" % (PT, N)], space_bits=8, bound="every P8E0 pattern"),
+            H("c14_%s_from_ints_%d" % (P, N), "c14::%s::from_ints" % P, gen=str(N), unwind=66, timeout=600, tier=q, funcs=["%s<%d>::from_u64%s, From" % (PT, N, "/from_i64/from_u32/from_i32" if P == "pxe2" else "/from_i32 (from_i64 and from_u32 are todo!() stubs)")], space_bits=64, bound="every 64-bit word (narrower types by truncation)"),
+            H("c14_%s_from_f64_%d" % (P, N), "c14::%s::from_f64" % P, gen=str(N), unwind=48, timeout=2400, tier="quick" if N in (5, 16) else "thorough", funcs=["%s<%d>::from_f64, From<f64>" % (PT, N)], space_bits=62,
+              bound="every f64 with binary exponent in [-160,160], zeros, NaN, infinities (loop bound 48)"),
+            H("c14_%s_from_f32_%d" % (P, N), "c14::%s::from_f32" % P, gen=str(N), unwind=48, timeout=2400, tier="quick" if N in (8,) else "thorough", funcs=["%s<%d>::from_f32, From<f32>" % (PT, N)], space_bits=32,
+              bound="every normal f32, zeros, NaN, infinities"),
+            )
+        if P == "pxe2":
+            reg("C14",
+                H("c14_pxe2_from_quire_%d" % N, "c14::pxe2::from_quire", gen=str(N), unwind=66, timeout=1800, mem_gb=10, tier="quick" if N in (8, 32) else "thorough", funcs=["From<Q32E2> for PxE2<%d>" % N], space_bits=512, bound="every 512-bit quire state"),
+                H("c14_pxe2_quire_roundtrip_%d" % N, "c14::pxe2::quire_roundtrip", gen=str(N), unwind=66, timeout=1800, mem_gb=10, tier="quick" if N in (8,) else "thorough", funcs=["From<PxE2<%d>> for Q32E2, From<Q32E2> for PxE2<%d>" % (N, N)], space_bits=N, bound="every %d-bit pattern" % N),
+                )
+    for M in C14_PAIR_N:
+        for N in C14_PAIR_N:
+            reg("C14", H("c14_%s_to_generic_%d_%d" % (P, M, N), "c14::%s::to_generic" % P, gen="%d, %d" % (M, N), unwind=34, timeout=300,
+                         tier="quick" if M in C14_PAIR_QUICK and N in C14_PAIR_QUICK else "thorough",
+                         funcs=["%s<%d> -> PxE2<%d>%s" % (PT, M, N, " and PxE1<%d>" % N if P == "pxe2" else "")], space_bits=M, bound="every %d-bit source pattern" % M))
+
+# ------------------------------------------------------------------ C16
+# own harnesses: functions no other property's harness calls
+for t, T, n, uw in TYPES:
+    stub = DIV32 if t != "p32" else LLDIV
+    reg("C16",
+        H("c16_%s_int_casts" % t, "c16::%s::int_casts" % t, unwind=uw, funcs=["%s::to_{i8,i16,i32,i64,isize,u8,u16,u32,u64,usize}, From<%s> for the integer types" % (T, T)], space_bits=n, bound="every bit pattern, NaR included"),
+        H("c16_%s_div_family" % t, "c16::%s::div_family" % t, unwind=uw + 8, timeout=900, stubs=[stub], funcs=["%s::recip" % T, "%s::rem" % T, "%s::div_euclid" % T, "%s::rem_euclid" % T], space_bits=2 * n + 2,
+          bound="every operand pair; integer division kernel replaced by its contract stub"),
+        H("c16_%s_div_unstubbed" % t, "c16::%s::div_unstubbed" % t, unwind=uw, timeout=1200, tier="quick" if t != "p32" else "thorough", funcs=["%s::div" % T, "softposit::%s" % ("lldiv" if t == "p32" else "div")], space_bits=2 * n,
+          bound="every operand pair, real division kernel, nothing asserted about the value"),
+        H("c16_%s_debug_fmt" % t, "c16::%s::debug_fmt" % t, unwind=24, timeout=600, funcs=["Debug for %s" % T], space_bits=n, bound="every bit pattern"),
+        )
+    if t != "p8":
+        reg("C16", H("c16_%s_scale_ops" % t, "c16::%s::scale_ops" % t, unwind=uw, timeout=900, funcs=["%s::to_degrees" % T, "%s::to_radians" % T], space_bits=n, bound="every bit pattern"))
+# every other property's harness also discharges Kani's built-in checks on the functions it calls; under
+# C16 they are re-run with reference mismatches IGNORED (a wrong value is not a totality question)
+C16_IGNORE_MISMATCH = True
+C16_BORROW_QUICK = ["C02", "C03", "C07", "C08", "C09", "C10", "C12", "C19"]
+for _p in C16_BORROW_QUICK:
+    for h in PLAN[_p]:
+        if h.tier == "quick" and h.timeout <= 300:
+            reg("C16", h)
+for h in PLAN["C01"] + PLAN["C05"] + PLAN["C06"] + PLAN["C04"]:
+    if h.name.startswith(("c01_p8", "c01_p16", "c05_p8", "c05_p16", "c06_p8", "c06_p16", "c04_q8", "c04_q16", "c01_p32_div", "c01_p32_mul", "c04_q32_to_posit", "c06_p32_sqrt_f4", "c05_p32_special")) and "bounded" not in h.name and "spell" not in h.name:
+        reg("C16", h)
+for h in PLAN["C13"] + PLAN["C14"]:
+    if h.tier == "quick" and any(h.name.endswith("_%d" % k) for k in (2, 3, 5, 8, 16)):
+        reg("C16", h)
+for h in PLAN["C11"] if "C11" in PLAN else []:
+    pass
+
+
+# ------------------------------------------------------------------ C11
+C11_FULL_QUICK = {"exp", "ln", "sin_pi", "atan_pi"}
+for fi, f in enumerate(["exp", "exp2", "ln", "log2", "sin_pi", "cos_pi", "tan_pi", "asin_pi", "acos_pi", "atan_pi"]):
+    for k in range(16):
+        reg("C11", H("c11_p16_%s_s%x" % (f, k), "c11::%s" % f, gen=str(k), unwind=40, timeout=900, tier="quick" if f in C11_FULL_QUICK else "thorough", rot=None if f in C11_FULL_QUICK else (k + fi, 4),
+                     funcs=["P16E1::%s" % f], space_bits=12, slice_of="P16E1::%s over all 65536 inputs" % f,
+                     bound="every P16E1 input whose top 4 bits are %#x, against the correctly rounded table (oracle/gen_tables.py)" % k))
+reg("C11",
+    H("c11_p8_exp", "c11::exp8", unwind=40, timeout=600, funcs=["P8E0::exp"], space_bits=8, bound="every P8E0 input, against the correctly rounded table"),
+    H("c11_p8_ln", "c11::ln8", unwind=40, timeout=600, funcs=["P8E0::ln"], space_bits=8, bound="every P8E0 input, against the correctly rounded table"),
+    )
+for h in PLAN["C11"]:
+    if h.name.endswith(("_s0", "_s3", "_s8", "_sc")) or h.name.startswith("c11_p8"):
+        reg("C16", h)
